@@ -536,7 +536,7 @@ pub fn headers() -> Vec<RHeader> {
         }
     }
     let pm = params_menu();
-    let wits: Vec<Vec<Vec<u8>>> = vec![vec![], vec![vec![]], vec![vec![1], vec![2, 3]]];
+    let wits: Vec<Vec<Vec<u8>>> = vec![vec![], vec![vec![]], vec![vec![1], vec![2, 3]], vec![blob(253, 31), vec![7]], vec![vec![9], blob(252, 32)]];
     for c in &pm {
         for p in &pm {
             for w in &wits {
